@@ -326,6 +326,31 @@ Section P.
     created (lg ++ [Created (d, i, n)]) = map (fun k => (d, i, k)) (seq 0 (S n)).
   Proof. intros H. rewrite created_app, H, seq_S, map_app. reflexivity. Qed.
 
+  (** ** a push only appends: whatever times are buffered already (in particular a second publication
+      for the time of the latest one), the buffer grows by exactly one entry at its end, every older
+      entry stays where it is, and the only change to the file system is the write of the new file
+      when the new entry is spilled.  An entry leaves the buffer only through [evict] / [finalize],
+      which release it. *)
+  Lemma push_appends (c : config) (s : state) t p size :
+    refused (c_kind c) (s_buf s) = false ->
+    exists e,
+      s_buf (push save c s t p size) = s_buf s ++ [(t, e)]
+      /\ is_spilled e = spills (c_limit c) (s_total s) size
+      /\ (is_spilled e = true ->
+          e = OnDisk (c_dir c, c_sid c, s_counter s)
+          /\ s_fs (push save c s t p size) = fs_write (c_dir c, c_sid c, s_counter s) (save p) (s_fs s)
+          /\ s_counter (push save c s t p size) = S (s_counter s))
+      /\ (is_spilled e = false ->
+          e = InRam p size
+          /\ s_fs (push save c s t p size) = s_fs s
+          /\ s_total (push save c s t p size) = s_total s + size).
+  Proof.
+    intros Hr. unfold push. rewrite Hr. unfold push_accept, pack.
+    destruct (spills (c_limit c) (s_total s) size); simpl; eexists;
+      (split; [reflexivity|]); (split; [reflexivity|]); split; intros Hsp;
+      try discriminate; repeat split; reflexivity.
+  Qed.
+
   (** ** static outputs: one publication, refused again wherever the first one lives *)
   Lemma static_refusal (c : config) (s : state) t p size :
     c_kind c = KStatic -> s_buf s <> [] -> push save c s t p size = s.
